@@ -113,6 +113,13 @@ def approxLog (p : Params F) (x : F) : F :=
     let s := significandPlusOne x -ᶠ one
     (((cA *ᶠ s +ᶠ cB) *ᶠ s +ᶠ cC) *ᶠ s) +ᶠ e
 
+/-- `buildFloat64` as the callers reach it: a significand that rounding took out of `[1,2)` — up to
+    exactly 2 (`1 + (1 - 2^-53)`) or just below 1 — is normalised before its bits are used -/
+def buildFloatN (e : Int) (s : F) : F :=
+  if le two s then buildFloat (e + 1) (s /ᶠ two)
+  else if lt s one then buildFloat e one
+  else buildFloat e s
+
 /-- `approximateInverseLog` -/
 def approxInvLog (p : Params F) (x : F) : F :=
   match p.kind with
@@ -120,7 +127,7 @@ def approxInvLog (p : Params F) (x : F) : F :=
   | .linear =>
     let exponent := floor x
     let sp1 := (x -ᶠ exponent) +ᶠ one
-    buildFloat (trunc exponent) sp1
+    buildFloatN (trunc exponent) sp1
   | .cubic =>
     let exponent := floor x
     -- `d0`, the constant part of `d1`, `27*A*A` and `3*A` are Go constant expressions: evaluated
@@ -131,7 +138,7 @@ def approxInvLog (p : Params F) (x : F) : F :=
     let d1 : F := k1 -ᶠ k2 *ᶠ (x -ᶠ exponent)
     let pp : F := cbrt ((d1 -ᶠ sqrt (d1 *ᶠ d1 -ᶠ ((ofInt 4 *ᶠ d0) *ᶠ d0) *ᶠ d0)) /ᶠ two)
     let sp1 : F := neg (((cB +ᶠ pp) +ᶠ d0 /ᶠ pp) /ᶠ ofRat (3 * Consts.cubicA)) +ᶠ one
-    buildFloat (trunc exponent) sp1
+    buildFloatN (trunc exponent) sp1
 
 /-- the hand-written floor of `Index`: `int(x)` for `x ≥ 0`, `int(x) - 1` otherwise -/
 def goFloor (x : F) : Int := if le (ofInt 0) x then trunc x else trunc x - 1
